@@ -8,3 +8,20 @@
 /*@type file=src/error.rs name=EepromError derive="Clone, Copy, PartialEq, Eq, Debug" @*/
 /*@type file=src/error.rs name=PduValidationError derive="Clone, Copy, PartialEq, Eq, Debug" @*/
 /*@type file=ethercrab-wire/src/error.rs name=WireError derive="Clone, Copy, PartialEq, Eq, Debug" @*/
+
+impl From<PduError> for Error {
+/*@fn file=src/error.rs impl="impl From<PduError> for Error" name=from ret=none canary=0
+@*/
+}
+impl vstd::std_specs::convert::FromSpecImpl<PduError> for Error {
+    open spec fn obeys_from_spec() -> bool { true }
+    open spec fn from_spec(v: PduError) -> Error { Error::Pdu(v) }
+}
+impl From<EepromError> for Error {
+/*@fn file=src/error.rs impl="impl From<EepromError> for Error" name=from ret=none canary=0
+@*/
+}
+impl vstd::std_specs::convert::FromSpecImpl<EepromError> for Error {
+    open spec fn obeys_from_spec() -> bool { true }
+    open spec fn from_spec(v: EepromError) -> Error { Error::Eeprom(v) }
+}
